@@ -664,7 +664,22 @@ func c09HeaderScenarios(c *Ctx) {
 			run := c.W.NewRun(map[string]int{}, false)
 			run.InlineAll, run.FollowSlices, run.AmbientPrinter = true, true, true
 			run.CallHook = c.cdescHook
-			run.StartArgs(fn, map[string]Val{"serviceHeaders": VList{Key: "sh", Elems: []Val{cHeader("X-Trace-ID", typ, "uuid", true)}}, "methodHeaders": VList{Key: "mh", Elems: []Val{}}})
+			shl := VList{Key: "sh", Elems: []Val{cHeader("X-Trace-ID", typ, "uuid", true)}}
+			mhl := VList{Key: "mh", Elems: []Val{}}
+			// the header lists reach the emitter as parameters or are fetched by it from the service and the method
+			run.Inject = map[string]Val{}
+			for _, f := range c.P.Decls[fn].Type.Params.List {
+				t := c.P.DeclPkg[fn].TypesInfo.TypeOf(f.Type)
+				for _, nm := range f.Names {
+					switch {
+					case t != nil && typeIsNamed(t, "compiler/protogen", "Service"):
+						run.Inject["annotations.GetServiceHeaders("+nm.Name+")"] = shl
+					case t != nil && typeIsNamed(t, "compiler/protogen", "Method"):
+						run.Inject["annotations.GetMethodHeaders("+nm.Name+")"] = mhl
+					}
+				}
+			}
+			run.StartArgs(fn, map[string]Val{"serviceHeaders": shl, "methodHeaders": mhl})
 			key := fmt.Sprintf("declared type %q with format uuid", typ)
 			if len(run.Used) > 0 {
 				r.Undec("R09h", key, pos, fmt.Sprintf("open decisions %v", usedKeys(run)))
